@@ -153,7 +153,13 @@ impl DefaultMetricLogWriter {
             |filename: &str, p: &str| -> bool { filename.contains(p) },
         )?;
         if list.is_empty() {
-            return Ok(self.base_dir.to_str().unwrap().to_owned() + &file_pattern);
+            // `join`, not string concatenation: the configured directory need not end with a separator
+            return Ok(self
+                .base_dir
+                .join(&file_pattern)
+                .to_str()
+                .unwrap()
+                .to_owned());
         }
         // Find files with the same prefix pattern, have to add the order to separate files.
         let last = &list[list.len() - 1];
@@ -162,12 +168,12 @@ impl DefaultMetricLogWriter {
         if !items.is_empty() {
             n = str::parse::<u32>(items[items.len() - 1]).unwrap_or(0);
         }
-        return Ok(format!(
-            "{}{}.{}",
-            self.base_dir.to_str().unwrap().to_owned(),
-            file_pattern,
-            n + 1
-        ));
+        return Ok(self
+            .base_dir
+            .join(format!("{}.{}", file_pattern, n + 1))
+            .to_str()
+            .unwrap()
+            .to_owned());
     }
 
     fn close_cur_and_new_file(&mut self, filename: String) -> Result<()> {
